@@ -323,10 +323,16 @@ func (r *relay) processor(id uint32) Processor {
 }
 
 func (r *relay) updateTableSize(v uint32) {
-	r.decoderMu.Lock()
-	r.decoder.SetMaxDynamicTableSize(v)
-	r.decoderMu.Unlock()
-
+	// Only the encoder follows the setting: `v` is the table size the destination of this relay is
+	// prepared to keep, and the encoder announces the change inside its next header block.
+	//
+	// The decoder must not be touched here. The SETTINGS frame is also forwarded to the source of this
+	// relay, but until that endpoint has received it, it keeps encoding against the table size in force
+	// so far. Afterwards it signals the size it has chosen, smaller or larger, at the start of its next
+	// header block, and the decoder applies that itself (RFC 7541, sections 4.2 and 6.3); newRelay has
+	// lifted the decoder's limit for such updates, so any size the source may choose is accepted.
+	// Shrinking the decoder's table as soon as the setting passes by evicts entries that header blocks
+	// already in flight still refer to.
 	r.encoderMu.Lock()
 	r.encoder.SetMaxDynamicTableSize(v)
 	r.encoderMu.Unlock()
